@@ -214,6 +214,9 @@ class Context(object):
         cs = chunksize or max(1, len(items) // (procs * 8))
         chunks = [items[i:i + cs] for i in range(0, len(items), cs)]
         out = []
+        import gc
+        gc.collect()
+        gc.freeze()      # forked workers must not touch (and thereby copy) the parent's millions of case objects
         try:
             with ProcessPoolExecutor(max_workers=procs, mp_context=ctxm) as ex:
                 for tag, val in ex.map(_pmap_chunk, [(fn, c) for c in chunks]):
@@ -222,6 +225,8 @@ class Context(object):
                     out.extend(val)
         except BrokenProcessPool as e:
             raise MachineryFailure("a pmap worker process died (%s) in %s" % (e, getattr(fn, "__name__", fn)))
+        finally:
+            gc.unfreeze()
         return out
 
     # ------------------------------------------------------------ violations
